@@ -245,3 +245,20 @@ Proof.
   intros H Hp Hg. rewrite <- (concat_repeats idx p Hp), <- Hg, (gather_is_blocks idx fn H), concat_blocks, counts_sum.
   rewrite H, seq_length, firstn_all. reflexivity.
 Qed.
+
+(* ---------- Deconvolution1D's model as it runs: the matrix is computed by the model from PSF and boundary mode ---------- *)
+Theorem deconv1_model_runs m P n x y : length x = n -> length y = n ->
+  forward (mat_model n (deconv1_matrix false m P n) (GId n) (GId n)) (V1 x) = Some (V1 (conv1 m P x)) /\
+  exists ay, adjoint (mat_model n (deconv1_matrix false m P n) (GId n) (GId n)) (V1 y) = Some (V1 ay) /\
+             qdot (conv1 m P x) y = qdot x ay.
+Proof.
+  intros Hx Hy. split.
+  - unfold forward, apply_func. cbn [mat_model lm_fwd lm_D lm_R p2f f2p obind mat_fwd].
+    change (deconv1_matrix false m P n) with (deconv1_cols m P n).
+    rewrite (deconv1_cols_operator m P n x Hx). reflexivity.
+  - exists (qmattvec n (deconv1_matrix false m P n) y). split; [reflexivity|].
+    rewrite <- (deconv1_cols_operator m P n x Hx).
+    destruct (deconv1_rows_shape m P n) as [W L].
+    apply qc_adjoint; [|exact Hx].
+    unfold deconv1_matrix, deconv1_cols. pose proof (tr_rows n (deconv1_rows m P n)) as HR. rewrite L in HR. exact HR.
+Qed.
